@@ -528,6 +528,31 @@ func runC17(c *harness.Ctx) {
 			}
 		}
 	}
+	// the hand-over of the create role to the holder itself, in worlds whose accounts adapter hands
+	// out the live object (T5; not part of the shared scenario library, whose other users compare
+	// results across adapter modes): every injectable dependency call of it fails in turn
+	if mine(c, 0) {
+		for k := 1; k <= 12; k++ {
+			for rep := 0; rep < 6; rep++ {
+				s := NewScn(c.Rand("c17self").Fork(uint64(k*10+rep)), R, ScnOpts{Shards: 1, Enabled: []string{"C17"}})
+				if s.U.W.CopyOnLoad {
+					continue
+				}
+				fp := &world.FaultPlan{FailAt: k, Injectable: injectable(s.U.W), Err: world.FaultErrors[(k+rep)%len(world.FaultErrors)]}
+				s.U.W.Fault = fp
+				l := s.U.HandOver(s.A, s.A, s.SFT)
+				s.U.W.Fault = nil
+				if len(fp.Fired) == 0 {
+					continue
+				}
+				if l.OK || l.Out != nil || l.Err == nil {
+					s.M.viol("C17", "fault-swallowed:"+FHandOver+":"+fp.Fired[0].Kind, fmt.Sprintf("hand-over to the holder itself: dependency call #%d (%s, key %q) failed but the call returned success", k, fp.Fired[0].Kind, fp.Fired[0].Key), l)
+				}
+				R.Cover("C17/self-hand-over-fault-fired")
+				R.Eval(1)
+			}
+		}
+	}
 	// faults on random-walk legs: every committed leg of a walk is re-executed on a clone with one
 	// random injectable call failing
 	if c.Thorough() || true {
